@@ -1,6 +1,7 @@
 (* C06 - a source that fails to compile leaves no trace in the compiler. *)
 From Coq Require Import String List NArith Bool.
 From YV Require Import Gen.SnapshotGen Compiler.Snapshot Compiler.SnapshotProofs.
+From YV Require Gen.AstBuilderArms Compiler.Accounting Compiler.AccountingProofs Compiler.AccountingC06.
 Import ListNotations.
 Local Open Scope N_scope.
 
@@ -40,6 +41,24 @@ Proof.
   rewrite (H e He). exact (restore_undoes s0 ws Hwf Hsh Hws f Hf).
 Qed.
 Print Assumptions failing_rule_leaves_no_trace.
+
+(* second sentence of the property: "every error is recorded in errors() and
+   every skipped rule in ignored_rules()" - the c_items loop of add_source, over
+   the GENERATED facts about what its Err arm and c_rule's tolerated-error arms
+   push (Gen/AstBuilderArms.v; model in Compiler/Accounting.v, shared with C09):
+   a rule whose compilation fails is listed among the ignored rules and adds at
+   least one error, whatever the other items of the source do *)
+Theorem failing_rule_is_recorded : forall oracle items s name x,
+  In (Gen.AstBuilderArms.KRule, name) items ->
+  oracle name = Compiler.Accounting.OFailed x ->
+  In name (Compiler.Accounting.c_ignored (Compiler.Accounting.c_items oracle items s)) /\
+  (Compiler.Accounting.c_errs s < Compiler.Accounting.c_errs (Compiler.Accounting.c_items oracle items s))%nat.
+Proof.
+  intros oracle items s name x Hin Ho. split.
+  - exact (Compiler.AccountingC06.failed_rule_in_ignored oracle items s name x Hin Ho).
+  - exact (Compiler.AccountingProofs.failed_rule_reports_error oracle items s name x Hin Ho).
+Qed.
+Print Assumptions failing_rule_is_recorded.
 
 (* no field that build() reads is classified as tolerated junk by accident:
    the vectors and maps that the scanner indexes by id must all be restored *)
